@@ -41,7 +41,7 @@ pub struct NeedleSpec {
     pub bits: u64,
 }
 
-pub const NEEDLE_KINDS: [&str; 13] = [
+pub const NEEDLE_KINDS: [&str; 14] = [
     "random-256",
     "random-small-alphabet",
     "periodic u^k",
@@ -55,6 +55,7 @@ pub const NEEDLE_KINDS: [&str; 13] = [
     "common bytes + one rare byte",
     "two equal rare bytes",
     "v W^k with W a word of 9..=24 distinct letters",
+    "u^k c u^k b (two equal periodic halves, each closed by its own byte)",
 ];
 
 pub fn build_needle(s: &NeedleSpec) -> Vec<u8> {
@@ -143,6 +144,27 @@ pub fn build_needle(s: &NeedleSpec) -> Vec<u8> {
                 i += 1;
             }
         }
+        13 => {
+            let ul = 1 + (s.bits as usize >> 5) % 3;
+            let unit: Vec<u8> = (0..ul).map(|i| [s.a, s.b, b'a'][i % 3]).collect();
+            let half = len.saturating_sub(2) / 2;
+            let c = if unit.contains(&b'c') { b'#' } else { b'c' };
+            let d = if unit.contains(&b'd') { b'%' } else { b'd' };
+            for i in 0..half {
+                v.push(unit[i % ul]);
+            }
+            if v.len() < len {
+                v.push(c);
+            }
+            for i in 0..half {
+                if v.len() < len {
+                    v.push(unit[i % ul]);
+                }
+            }
+            while v.len() < len {
+                v.push(d);
+            }
+        }
         _ => {
             let common = b"eta ";
             for _ in 0..len {
@@ -171,7 +193,7 @@ pub fn needle_spec() -> impl Strategy<Value = NeedleSpec> {
         6 => 65usize..=600,
         1 => 601usize..=3000,
     ];
-    (0u8..13, len, any::<u8>(), any::<u8>(), 1usize..=12, any::<u64>()).prop_map(|(kind, len, a, b, ulen, bits)| {
+    (0u8..14, len, any::<u8>(), any::<u8>(), 1usize..=12, any::<u64>()).prop_map(|(kind, len, a, b, ulen, bits)| {
         let b = if b == a { a.wrapping_add(1) } else { b };
         NeedleSpec { kind, len, a, b, ulen, bits }
     })
